@@ -16,7 +16,7 @@ use std::collections::BTreeSet;
 use std::path::Path;
 use vp::*;
 
-const SYSCALLS: &str = "?rename,?renameat,?renameat2,?unlink,?unlinkat,?link,?linkat,?symlink,?symlinkat,?mkdir,?mkdirat,?rmdir,?open,?openat,?openat2,?creat,?write,?pwrite64,?writev,?ftruncate,?fsync,?fdatasync";
+const SYSCALLS: &str = "?rename,?renameat,?renameat2,?unlink,?unlinkat,?link,?linkat,?symlink,?symlinkat,?mkdir,?mkdirat,?rmdir,?open,?openat,?openat2,?creat,?write,?pwrite64,?writev,?pwritev,?pwritev2,?copy_file_range,?sendfile,?splice,?ftruncate,?truncate,?fallocate,?fsync,?fdatasync";
 
 #[derive(Clone, Debug, PartialEq, Eq, Hash)]
 struct Scenario {
@@ -57,6 +57,15 @@ fn decode(t: &mut Tape) -> Option<Scenario> {
 }
 
 fn worker_main(git_dir: &str, tape_hex: &str) -> ! {
+    // never burn CPU without bound should a transaction not return (termination is C17's matter)
+    unsafe {
+        let lim = libc::rlimit {
+            rlim_cur: 30,
+            rlim_max: 30,
+        };
+        libc::setrlimit(libc::RLIMIT_CPU, &lim);
+        libc::alarm(600);
+    }
     let tape = unhex(tape_hex).unwrap_or_default();
     let mut t = Tape::new(&tape);
     if let Some(sc) = decode(&mut t) {
@@ -467,7 +476,7 @@ pub fn main() {
         worker_main(&args[2], &args[3]);
     }
     let mut ck = Check::new("C20", "fault_enumeration");
-    ck.rule("One committable C16-style transaction (1..4 edits: update to object|symbolic, delete, deref, log-only, force-create-reflog; all three PackedRefs modes) on a generated pre-state (loose / packed / loose+stale-packed, symbolic chains, reflogs on), executed by a worker process; a counting pass under strace records its filesystem syscalls {rename*,unlink*,link*,symlink*,mkdir*,rmdir,open*,creat,write,pwrite64,writev,ftruncate,fsync,fdatasync}; EVERY mutating syscall between the first and last access to the git dir is a crash point: state restored, worker re-run with SIGKILL injected on entry to that syscall. Read-only opens and fsyncs are skipped (killing before them is the same state as killing before the next mutating syscall); of a run of consecutive writes into one *.lock file or one reflog only the first and the last are crash points (the states in between differ only in the content of the left-over lock file / the partially appended reflog line, which the oracle does not look at). Non-trivial: at least one crash point inside the transaction; distinct by hash of the decoded scenario.");
+    ck.rule("One committable C16-style transaction (1..4 edits: update to object|symbolic, delete, deref, log-only, force-create-reflog; all three PackedRefs modes) on a generated pre-state (loose / packed / loose+stale-packed, symbolic chains, reflogs on), executed by a worker process; a counting pass under strace records its filesystem syscalls {rename*,unlink*,link*,symlink*,mkdir*,rmdir,open*,creat,write,pwrite64,writev,pwritev*,copy_file_range,sendfile,splice,ftruncate,truncate,fallocate,fsync,fdatasync}; EVERY mutating syscall between the first and last access to the git dir is a crash point: state restored, worker re-run with SIGKILL injected on entry to that syscall. Read-only opens and fsyncs are skipped (killing before them is the same state as killing before the next mutating syscall); of a run of consecutive writes into one *.lock file or one reflog only the first and the last are crash points (the states in between differ only in the content of the left-over lock file / the partially appended reflog line, which the oracle does not look at). Non-trivial: at least one crash point inside the transaction; distinct by hash of the decoded scenario.");
     ck.assume(&format!(
         "{} (for-each-ref, symbolic-ref --no-recurse, rev-parse --verify) reads the repository after every kill; strace delivers SIGKILL on entry to the k-th invocation of a named syscall (the syscall is not executed); DESIGN 2.8's `inject=<set>:when=N` does NOT address the N-th syscall of the set, because strace keeps one counter per syscall name",
         Git::version()
@@ -475,7 +484,7 @@ pub fn main() {
     ck.assume("process death only (no power loss / fsync reordering); multi-ref transactions are atomic per ref, not across refs (documented); reflog files may show a partially appended last line (not claimed by the property, labelled `reflog-partially-appended`); transactions that run into a directory/file conflict are discarded (commit may fail half way by documentation); the class of the known C16 finding `remove-loose-mode-loses-unpackable-ref` is generated in mode DeletionsAndNonSymbolicUpdates instead");
     ck.sub(
         "crash-points",
-        SubCfg::new(160, 3_000).max_len(256).max_shrink(30).max_discard_pct(35),
+        SubCfg::new(160, 3_000).max_len(256).max_shrink(12).max_discard_pct(35),
         crash_points,
     );
     ck.finish();
